@@ -244,7 +244,12 @@ func (c *ServerChannel) EstablishSession(
 			negEncryptOpts = append(negEncryptOpts, v.(SessionEncryption))
 		}
 
-		if len(negCompOpts) > 1 || len(negEncryptOpts) > 1 {
+		// A single remaining option must still be negotiated while the transport is not using it,
+		// otherwise a server configured without the 'none' encryption would authenticate over cleartext.
+		pendingOpt := (len(negCompOpts) == 1 && negCompOpts[0] != c.transport.Compression()) ||
+			(len(negEncryptOpts) == 1 && negEncryptOpts[0] != c.transport.Encryption())
+
+		if len(negCompOpts) > 1 || len(negEncryptOpts) > 1 || pendingOpt {
 			// Negotiate the session options
 			if err = c.negotiateSession(ctx, negCompOpts, negEncryptOpts); err != nil {
 				return err
